@@ -49,6 +49,8 @@ namespace vu
          r = maximum_rule_with_action< std::uint8_t >::match< apply_mode::action, rewind_mode::required, nothing, normal >( in, u8 ) && r;
          r = maximum_rule_with_action< std::uint16_t, 1000 >::match< apply_mode::action, rewind_mode::required, nothing, normal >( in, u16 ) && r;
          r = maximum_rule_with_action< std::uint8_t >::match< apply_mode::nothing, rewind_mode::required, nothing, normal >( in ) && r;
+         r = maximum_rule_with_action< std::uint16_t, 1000 >::match< apply_mode::nothing, rewind_mode::required, nothing, normal >( in ) && r;      // an explicit maximum below the type's, actions disabled
+         r = maximum_rule_with_action< std::uint32_t, 99 >::match< apply_mode::nothing, rewind_mode::required, nothing, normal >( in, u32 ) && r;
          r = signed_rule_with_action::match< apply_mode::action, rewind_mode::required, nothing, normal >( in, i8 ) && r;
          r = signed_rule_with_action::match< apply_mode::action, rewind_mode::required, nothing, normal >( in, i32 ) && r;
          r = signed_rule_with_action::match< apply_mode::nothing, rewind_mode::required, nothing, normal >( in ) && r;
